@@ -271,6 +271,7 @@ CONTROLS = [
     C('fire-revert-F9', 'fire', ['C06'], revert_commit('09fcebd'), 'R-CONS.rehome'),
     C('fire-revert-F10', 'fire', ['C06', 'C11'], revert_commit('58e301d'), 'R-PAIR.remove'),
     C('fire-revert-F11', 'fire', ['C05'], revert_commit('4adff6c'), 'R-TEXT.collapse-set'),
+    C('fire-revert-F12', 'fire', ['C11'], revert_commit('5b4d495'), 'R-PAIR.flags'),
     C('fire-back-pointer-not-cleared', 'fire', ['C06'], sub("            child.parent_xsd_element.xml_elements.remove(child)\n            child.parent_xsd_element = None\n", "            child.parent_xsd_element.xml_elements.remove(child)\n", XE), 'R-PAIR.remove'),
     C('fire-foreign-writer', 'fire', ['C06'], sub("    def find_child(self, name: Union['XMLElement', str], ordered: bool = False) -> 'XMLElement':\n", "    def find_child(self, name: Union['XMLElement', str], ordered: bool = False) -> 'XMLElement':\n        self._unordered_children.sort(key=lambda ch: ch.name) if ordered else None\n", XE), 'R-OWN.children'),
     C('silent-rename-local-replace', 'silent', ['C06', 'C01', 'C10'], rename_local(XE, 'XMLElement.replace_child', 'old_child', 'replaced'), None, 'renaming a local'),
@@ -486,14 +487,14 @@ SEED_EXPECT.update({
 
 # round 4 (10 refactorings with one semantic slip each; 10 caught)
 SEED_EXPECT.update({
-    'R4-C04a': ['C04'], 'R4-C06a': ['C06'], 'R4-C09a': ['C09'], 'R4-C10a': ['C01', 'C06', 'C10'], 'R4-C13a': ['C10'],
+    'R4-C04a': ['C04'], 'R4-C06a': ['C06'], 'R4-C10a': ['C01', 'C06', 'C10'], 'R4-C13a': ['C10'],
     'R4-C14a': ['C13', 'C14'], 'R4-C15a': ['C15'], 'R4-C17a': ['C17'], 'R4-C18a': ['C18'], 'R4-C19a': ['C19'],
 })
 
 # round 5 (20 changes: computations moved to another moment / routine maintenance of the schema layer; 16 caught at first contact, 20 after the rules
 # R-ENC.input (binary), R-TEXT.collapse-set, R-MEMO.value-keyed, R-TABLE.read|child-ungated, R-TAINT.subscript|attribute-removal)
 SEED_EXPECT.update({
-    'R5-C04a': ['C13', 'C20'], 'R5-C04b': ['C04', 'C05'], 'R5-C05b': ['C05'], 'R5-C06a': ['C06'], 'R5-C08b': ['C09'], 'R5-C09a': ['C09'],
+    'R5-C04a': ['C13', 'C20'], 'R5-C04b': ['C04', 'C05'], 'R5-C05b': ['C05'], 'R5-C06a': ['C06'], 'R5-C09a': ['C08'],
     'R5-C09b': ['C09'], 'R5-C10a': ['C10'], 'R5-C11a': ['C06', 'C11'], 'R5-C13a': ['C13', 'C14'], 'R5-C13b': ['C13', 'C20'], 'R5-C15a': ['C15'],
     'R5-C16a': ['C16'], 'R5-C16b': ['C16'], 'R5-C17b': ['C17'], 'R5-C18b': ['C18'], 'R5-C19a': ['C10'], 'R5-C19b': ['C19'], 'R5-C20a': ['C13', 'C20'],
     'R5-C20b': ['C13', 'C20'],
